@@ -23,6 +23,7 @@ import (
 	"strings"
 	"sync"
 	"syscall"
+	"testing/iotest"
 	"time"
 
 	"github.com/EliCDavis/polyform/formats/ply"
@@ -38,7 +39,75 @@ const (
 	clsErr   = 1 // error return or panic(err) with a non-runtime error: a reported failure
 	clsCrash = 2 // runtime.Error panic, or the decoding process died (out of memory)
 	clsHang  = 3 // deadline exceeded
+	clsDep   = 4 // the result depends on the kind of io.Reader the bytes come from
 )
+
+// Reader kinds: every decode is repeated with each of them; the result must not depend on it.
+// In-memory readers exposing Len()/Seek/ReadAt, and opaque streaming readers that only have Read.
+var readerKinds = []string{"bytes.Reader", "bytes.Buffer", "strings.Reader", "opaque io.Reader (no Len)",
+	"iotest.OneByteReader", "iotest.HalfReader", "iotest.DataErrReader"}
+
+const kindAll = 15
+
+func mkReader(kind int, data []byte) io.Reader {
+	switch kind {
+	case 1:
+		return bytes.NewBuffer(append([]byte(nil), data...))
+	case 2:
+		return strings.NewReader(string(data))
+	case 3:
+		return struct{ io.Reader }{bytes.NewReader(data)}
+	case 4:
+		return iotest.OneByteReader(bytes.NewReader(data))
+	case 5:
+		return iotest.HalfReader(bytes.NewReader(data))
+	case 6:
+		return iotest.DataErrReader(bytes.NewReader(data))
+	}
+	return bytes.NewReader(data)
+}
+
+func sameObservables(a, b outcome) bool {
+	if a.Cls != b.Cls || a.N != b.N || a.Digest != b.Digest || a.HasErr != b.HasErr || a.Pts != b.Pts || len(a.Recs) != len(b.Recs) {
+		return false
+	}
+	for i := range a.Recs {
+		if a.Recs[i] != b.Recs[i] {
+			return false
+		}
+	}
+	return true
+}
+
+// decodeKinds decodes with one reader kind, or (kindAll) with every kind and folds the outcomes: identical ->
+// that outcome; a crash under some reader -> that crash; otherwise class clsDep.
+func decodeKinds(format string, data []byte, kind int) outcome {
+	if kind != kindAll {
+		return decodeHere(format, data, kind)
+	}
+	first := decodeHere(format, data, 0)
+	total := first.Micros
+	for k := 1; k < len(readerKinds); k++ {
+		o := decodeHere(format, data, k)
+		total += o.Micros
+		if sameObservables(first, o) {
+			continue
+		}
+		if o.Cls == clsCrash {
+			o.Msg = readerKinds[k] + ": " + o.Msg
+			return o
+		}
+		if first.Cls == clsCrash {
+			first.Msg = readerKinds[0] + ": " + first.Msg
+			return first
+		}
+		return outcome{Cls: clsDep, N: o.N, Micros: total,
+			Msg: fmt.Sprintf("result depends on the reader: %s -> class %d (%d vertices), %s -> class %d (%d vertices)",
+				readerKinds[0], first.Cls, first.N, readerKinds[k], o.Cls, o.N)}
+	}
+	first.Micros = total
+	return first
+}
 
 const memCapBytes = 3 << 30 // address-space cap of a decoding process
 
@@ -183,7 +252,7 @@ func ptsResultCoq(m *modeling.Mesh) string {
 }
 
 // decodeHere runs the real decoder in this process under recover().
-func decodeHere(format string, data []byte) (o outcome) {
+func decodeHere(format string, data []byte, kind int) (o outcome) {
 	t0 := time.Now()
 	defer func() {
 		if rec := recover(); rec != nil {
@@ -202,13 +271,13 @@ func decodeHere(format string, data []byte) (o outcome) {
 	var err error
 	switch format {
 	case "stl":
-		m, err = stl.ReadMesh(bytes.NewReader(data))
+		m, err = stl.ReadMesh(mkReader(kind, data))
 	case "ply":
-		m, err = ply.ReadMesh(bytes.NewReader(data))
+		m, err = ply.ReadMesh(mkReader(kind, data))
 	case "pts":
-		m, err = pts.ReadPointCloud(bytes.NewReader(data))
+		m, err = pts.ReadPointCloud(mkReader(kind, data))
 	case "splat":
-		mm, e := splat.Read(bytes.NewReader(data))
+		mm, e := splat.Read(mkReader(kind, data))
 		o = outcome{Cls: clsOk, HasErr: e != nil, N: mm.AttributeLength(), Recs: splatRecords(mm)}
 		if e != nil {
 			o.Msg = e.Error()
@@ -216,7 +285,7 @@ func decodeHere(format string, data []byte) (o outcome) {
 		return o
 	case "spz":
 		var c *spz.Cloud
-		c, err = spz.Read(bytes.NewReader(data))
+		c, err = spz.Read(mkReader(kind, data))
 		if err == nil {
 			m = &c.Mesh
 		}
@@ -252,7 +321,7 @@ func workerMain() {
 		if _, err := io.ReadFull(in, data); err != nil {
 			return
 		}
-		o := decodeHere(formats[int(hdr[0])%len(formats)], data)
+		o := decodeKinds(formats[int(hdr[0]&15)%len(formats)], data, int(hdr[0]>>4))
 		js, _ := json.Marshal(o)
 		var l [4]byte
 		binary.LittleEndian.PutUint32(l[:], uint32(len(js)))
@@ -336,7 +405,7 @@ func vmHWM(pid int) int64 {
 }
 
 // roundTrip sends one request to w; ok=false means w must not be reused (killed or dead).
-func (p *pool) roundTrip(w *worker, format string, data []byte, wantPeak bool) (o outcome, ok bool) {
+func (p *pool) roundTrip(w *worker, format string, data []byte, wantPeak bool, kind int) (o outcome, ok bool) {
 	type ans struct {
 		o   outcome
 		err error
@@ -344,7 +413,7 @@ func (p *pool) roundTrip(w *worker, format string, data []byte, wantPeak bool) (
 	ch := make(chan ans, 1)
 	go func() {
 		hdr := make([]byte, 5)
-		hdr[0] = fmtCode(format)
+		hdr[0] = fmtCode(format) | byte(kind)<<4
 		binary.LittleEndian.PutUint32(hdr[1:], uint32(len(data)))
 		if _, err := w.in.Write(append(hdr, data...)); err != nil {
 			ch <- ans{err: err}
@@ -402,6 +471,20 @@ func (p *pool) roundTrip(w *worker, format string, data []byte, wantPeak bool) (
 
 // decode runs one decode in a pooled child process under the deadline.
 func (p *pool) decode(format string, data []byte) outcome {
+	o := p.decodeKind(format, data, kindAll)
+	if o.Cls == clsHang {
+		// which reader kind misses the deadline?
+		for k := range readerKinds {
+			if ok := p.decodeKind(format, data, k); ok.Cls == clsHang {
+				o.Msg = readerKinds[k] + ": deadline exceeded"
+				break
+			}
+		}
+	}
+	return o
+}
+
+func (p *pool) decodeKind(format string, data []byte, kind int) outcome {
 	p.mu.Lock()
 	p.calls++
 	p.mu.Unlock()
@@ -414,7 +497,7 @@ func (p *pool) decode(format string, data []byte) outcome {
 			return outcome{Cls: clsCrash, Msg: "cannot start decoding process: " + err.Error()}
 		}
 	}
-	o, ok := p.roundTrip(w, format, data, false)
+	o, ok := p.roundTrip(w, format, data, false, kind)
 	if ok {
 		select {
 		case p.idle <- w:
@@ -431,7 +514,7 @@ func (p *pool) decodeFresh(format string, data []byte) outcome {
 	if err != nil {
 		return outcome{Cls: clsCrash, Msg: "cannot start decoding process: " + err.Error()}
 	}
-	o, ok := p.roundTrip(w, format, data, true)
+	o, ok := p.roundTrip(w, format, data, true, kindAll)
 	if ok {
 		w.kill()
 	}
